@@ -115,6 +115,17 @@ def run(case):
             res["nontrivial"] = repr(sorted(case.items(), key=str))
         if [d[0] for d in deps] != orig_names:
             raise RuntimeError(f"layout names {deps} vs cube keys {orig_names}")
+        if case["wseed"] % 3 == 2:
+            # refused requests first (an integer one past the end of an axis, ranges on the others): a refusal
+            # leaves the cube and its extra coordinates as they were
+            for a in range(nd):
+                bad = [slice(1, None)] * nd
+                bad[a] = int(cube.data.shape[a])
+                try:
+                    cube[tuple(bad)]
+                except Exception:
+                    pass
+            res["tags"].append("after-refused-requests")
         try:
             s = apply_chain(cube, case["chain"], C.npint_of(case))
             ec = s.extra_coords
